@@ -17,6 +17,9 @@ Inductive seg :=
 | SBlockOpen (stmt : bytes) (body : list seg)   (* [stmt { body] with the closing brace left to the `else` that follows *)
 | SBlockCont (stmt : bytes) (body : list seg)   (* [} stmt { body], again left open: `else if` followed by another else *)
 | SBlockLast (stmt : bytes) (body : list seg)   (* [} stmt { body }]: the last link of an if / else chain *)
+| SObjId (expr : bytes)                   (* [obj] : ` id="..."` from goht.ObjectID(expr), when it is not empty *)
+| SClassList (args : bytes)               (* ` class="..."` from goht.BuildClassList(args) *)
+| SAttrList (cmd : bytes)                 (* the attributes goht.BuildAttributeList(cmd) builds *)
 | SStmt (stmt : bytes)                    (* a line of Go: `- x := f()` *)
 | SLine (stmt : bytes) (body : list seg)  (* a line of Go followed by nested content, without braces of its own: `- case 1:` *)
 | SChildren                               (* = @children : __children.Render(ctx, __buf) *)
@@ -66,6 +69,23 @@ Definition attr_dyn_code (ind : nat) (t : token) : bytes :=
 Definition block_code (ind : nat) (stmt body_code : bytes) (mb : bool) : bytes :=
   tabs ind ++ stmt ++ lit " {" ++ [10] ++ body_code ++ (if mb then close_text (Lo (S ind)) else []) ++ tabs ind ++ lit "}" ++ [10].
 
+Definition objid_code (ind : nat) (v expr : bytes) : bytes :=
+  tabs ind ++ lit "if " ++ v ++ lit " := goht.ObjectID(" ++ expr ++ lit "); " ++ v ++ lit " != """" {" ++ [10] ++
+  tabs ind ++ [9] ++ write_string_open ++ lit """ id=\""""+" ++ v ++ lit "+""\""""); __err != nil { return }" ++ [10] ++
+  tabs ind ++ lit "}" ++ [10].
+
+Definition classlist_code (ind : nat) (v args : bytes) : bytes :=
+  tabs ind ++ lit "var " ++ v ++ lit " string" ++ [10] ++
+  tabs ind ++ v ++ lit ", __err = goht.BuildClassList(" ++ args ++ lit ")" ++ [10] ++
+  tabs ind ++ lit "if __err != nil { return }" ++ [10] ++
+  tabs ind ++ write_string_open ++ lit """ class=\""""+" ++ v ++ lit "+""\""""" ++ lit "); __err != nil { return }" ++ [10].
+
+Definition attrlist_code (ind : nat) (v cmd : bytes) : bytes :=
+  tabs ind ++ lit "var " ++ v ++ lit " string" ++ [10] ++
+  tabs ind ++ v ++ lit ", __err = goht.BuildAttributeList(" ++ cmd ++ lit ")" ++ [10] ++
+  tabs ind ++ lit "if __err != nil { return }" ++ [10] ++
+  tabs ind ++ write_string_open ++ v ++ lit "); __err != nil { return }" ++ [10].
+
 (** one link of an if / else-if / else chain, without its closing brace *)
 Definition chain_head_code (ind : nat) (first : bool) (stmt body_code : bytes) (mb : bool) : bytes :=
   tabs ind ++ (if first then [] else lit "} ") ++ stmt ++ lit " {" ++ [10] ++ body_code ++ (if mb then close_text (Lo (S ind)) else []).
@@ -101,6 +121,12 @@ Inductive denotes : nat -> mode -> mode -> bytes -> list seg -> Prop :=
 | d_render_block ind v expr body_code body (mb : bool) rest segs m' :
     denotes (S ind) false mb body_code body -> denotes ind false m' rest segs ->
     denotes ind false m' (render_block_code ind v expr body_code mb ++ rest) (SRender expr (Some body) :: segs)
+| d_objid ind v expr rest segs m' : denotes ind false m' rest segs ->
+    denotes ind false m' (objid_code ind v expr ++ rest) (SObjId expr :: segs)
+| d_classlist ind v args rest segs m' : denotes ind false m' rest segs ->
+    denotes ind false m' (classlist_code ind v args ++ rest) (SClassList args :: segs)
+| d_attrlist ind v cmd rest segs m' : denotes ind false m' rest segs ->
+    denotes ind false m' (attrlist_code ind v cmd ++ rest) (SAttrList cmd :: segs)
 | d_stmt ind stmt rest segs m' : denotes ind false m' rest segs ->
     denotes ind false m' ((tabs ind ++ stmt ++ [10]) ++ rest) (SStmt stmt :: segs)
 | d_line ind stmt body_code body (mb : bool) rest segs m' :
@@ -124,7 +150,7 @@ Proof.
   intro H1. revert m3 c2 s2.
   induction H1 as [ind m|ind p h rest segs m' Hr _ IH|ind rest segs m' _ IH|ind rest segs m' _ IH|ind v t rest segs m' _ IH
                   |ind t rest segs m' _ IH|ind v t rest segs m' _ IH|ind rest segs m' _ IH|ind expr rest segs m' _ IH
-                  |ind v expr bc body mb rest segs m' Hb _ _ IH|ind stmt rest segs m' _ IH|ind stmt bc body mb rest segs m' Hb _ _ IH|ind stmt bc body mb rest segs m' Hb _ _ IH
+                  |ind v expr bc body mb rest segs m' Hb _ _ IH|ind v expr rest segs m' _ IH|ind v args rest segs m' _ IH|ind v cmd rest segs m' _ IH|ind stmt rest segs m' _ IH|ind stmt bc body mb rest segs m' Hb _ _ IH|ind stmt bc body mb rest segs m' Hb _ _ IH
                   |ind stmt bc body mb rest segs m' Hb _ _ IH|ind stmt bc body mb rest segs m' Hb _ _ IH|ind stmt bc body mb rest segs m' Hb _ _ IH]; intros m3 c2 s2 H2; cbn [app].
   - exact H2.
   - rewrite <- app_assoc. apply d_lit; [exact Hr|apply IH; exact H2].
@@ -136,6 +162,9 @@ Proof.
   - rewrite <- app_assoc. apply d_children. apply IH; exact H2.
   - rewrite <- app_assoc. apply d_render. apply IH; exact H2.
   - rewrite <- app_assoc. apply d_render_block; [exact Hb|apply IH; exact H2].
+  - rewrite <- app_assoc. apply d_objid. apply IH; exact H2.
+  - rewrite <- app_assoc. apply d_classlist. apply IH; exact H2.
+  - rewrite <- app_assoc. apply d_attrlist. apply IH; exact H2.
   - rewrite <- app_assoc. apply d_stmt. apply IH; exact H2.
   - rewrite <- app_assoc. apply d_line; [exact Hb|apply IH; exact H2].
   - rewrite <- app_assoc. apply d_block; [exact Hb|apply IH; exact H2].
@@ -145,6 +174,37 @@ Proof.
 Qed.
 
 (** writer states of the two modes *)
+(** the whitespace-removal markers are written as they are and read as they are *)
+Lemma reads_rune3 a b c : decode_rune [a; b; c] = Some (match decode_rune [a; b; c] with Some (r, _) => r | None => 0 end, 3%nat) ->
+  a <> 34 -> a <> 10 -> a <> 92 ->
+  encode_rune (match decode_rune [a; b; c] with Some (r, _) => r | None => 0 end) = [a; b; c] ->
+  (forall rest, decode_rune (a :: b :: c :: rest) = decode_rune [a; b; c]) ->
+  reads_as [a; b; c] [a; b; c].
+Proof.
+  intros Hd H1 H2 H3 He Hrest. exists 1%nat. split; [cbn; lia|]. intros rest fu. cbn [plus app unquote_body].
+  destruct (N.eqb_spec a 34); [congruence|]. destruct (N.eqb_spec a 10); [congruence|]. cbn [orb].
+  destruct (N.eqb_spec a 92); [congruence|]. rewrite Hrest, Hd, He. cbn [skipn]. reflexivity.
+Qed.
+
+Lemma reads_radioactive : reads_as [226; 152; 162] [226; 152; 162].
+Proof.
+  apply reads_rune3; try (intro; discriminate); try reflexivity.
+Qed.
+
+Lemma reads_marker_after : reads_as c_NukeAfter c_NukeAfter.
+Proof.
+  change c_NukeAfter with ([126] ++ [226; 152; 162] ++ [60]).
+  apply reads_as_app; [apply reads_as_plain_char; repeat split; cbn; try lia; discriminate|].
+  apply reads_as_app; [exact reads_radioactive|apply reads_as_plain_char; repeat split; cbn; try lia; discriminate].
+Qed.
+
+Lemma reads_marker_before : reads_as c_NukeBefore c_NukeBefore.
+Proof.
+  change c_NukeBefore with ([62] ++ [226; 152; 162] ++ [126]).
+  apply reads_as_app; [apply reads_as_plain_char; repeat split; cbn; try lia; discriminate|].
+  apply reads_as_app; [exact reads_radioactive|apply reads_as_plain_char; repeat split; cbn; try lia; discriminate].
+Qed.
+
 Section Seg.
 Variable ind : nat.
 
@@ -380,14 +440,39 @@ Definition attr_segs (a : attribute) : list seg :=
   end.
 
 Definition dyn_elem (d : elem) : Prop :=
-  bytes_ok (e_tag d) /\ bytes_ok (e_id d) /\ Forall static_class (e_classes d) /\ e_objref d = None /\
-  omap_get (e_attrs d) (lit "class") = None /\ Forall (fun kv => dyn_attr (snd kv)) (e_attrs d) /\
-  e_attrs_cmd d = [] /\ e_nuke_inner d = false /\ e_nuke_outer d = false.
+  bytes_ok (e_tag d) /\ bytes_ok (e_id d) /\ Forall static_class (e_classes d) /\
+  (forall o, e_objref d = Some o -> t_typ o = TObjectRef) /\
+  omap_get (e_attrs d) (lit "class") = None /\ Forall (fun kv => dyn_attr (snd kv)) (e_attrs d).
 
 Definition id_class_html (d : elem) : bytes :=
   match e_id d with [] => [] | i => lit " id=" ++ [34] ++ html_escape i ++ [34] end ++ class_html (e_classes d).
 
 Definition attrs_segs (d : elem) : list seg := List.concat (map (fun kv => attr_segs (snd kv)) (e_attrs d)).
+
+(** the arguments of goht.BuildClassList as the emitter writes them *)
+Definition class_arg_text (c : token) : bytes :=
+  match t_typ c with
+  | TObjectRef => lit "goht.ObjectClass(" ++ t_lit c ++ lit ")"
+  | TAttrDynamicValue => t_lit c
+  | TClass => go_quote (t_lit c)
+  | _ => t_lit c
+  end.
+Fixpoint class_args_text (l : list token) : bytes :=
+  match l with
+  | [] => []
+  | c :: rest => class_arg_text c ++ (match rest with [] => [] | _ => lit ", " end) ++ class_args_text rest
+  end.
+
+Definition id_html (d : elem) : bytes := match e_id d with [] => [] | i => lit " id=" ++ [34] ++ html_escape i ++ [34] end.
+
+Definition id_segs (d : elem) : list seg := match e_id d with [] => [] | _ => [SLit (id_html d)] end.
+
+(** everything between the tag name and the closing `>` *)
+Definition elem_segs (d : elem) : list seg :=
+  match e_objref d with
+  | None => [SLit (id_class_html d)]
+  | Some o => [SObjId (t_lit o)] ++ id_segs d ++ [SClassList (class_args_text (e_classes d ++ [o]))]
+  end ++ attrs_segs d ++ match e_attrs_cmd d with [] => [] | cmd => [SAttrList cmd] end.
 
 (** what may follow `!` on a line: text (written without escaping) and expressions *)
 Definition raw_child (n : node) : Prop :=
@@ -442,9 +527,13 @@ Fixpoint segs_of (nc fl : bool) (n : node) : list seg :=
                    end) in
     match k with
     | KElement _ _ d =>
-      [SLit (lit "<" ++ e_tag d); SLit (id_class_html d)] ++ attrs_segs d ++ [SLit (lit ">")] ++
+      (if e_nuke_outer d then [SLit c_NukeBefore] else []) ++
+      [SLit (lit "<" ++ e_tag d)] ++ elem_segs d ++ [SLit (lit ">")] ++
       (if e_selfclosing d then []
-       else (if only_newline ch then [] else kids false ch) ++ [SLit (lit "</" ++ e_tag d ++ lit ">"); SLit [10]])
+       else (if e_nuke_inner d then [SLit c_NukeAfter] else []) ++
+            (if only_newline ch then [] else kids false ch) ++
+            (if e_nuke_inner d then [SLit c_NukeBefore] else []) ++
+            [SLit (lit "</" ++ e_tag d ++ lit ">"); SLit (if e_nuke_outer d then c_NukeAfter else [10])])
     | KText o => if toktype_eqb (t_typ o) TDynamicText then [SDyn o] else [SLit (text_html o)]
     | KScript o => [SDyn o]
     | KNewLine _ => [SLit [10]]
@@ -487,88 +576,298 @@ Lemma dyn_all_eq l : (fix all (l : list node) : Prop := match l with [] => True 
 Proof. induction l as [|c r IH]; [split; constructor|]. split; [intros [H1 H2]; constructor; [exact H1|apply IH; exact H2]|intro H; inversion H; split; [assumption|apply IH; assumption]]. Qed.
 
 (** attributes, from either mode *)
-Lemma render_attrs_run sm ind (l : list (bytes * attribute)) : forall m st,
+Lemma attr_bool_run sm ind (name value : bytes) (origin : token) (m : bool) st :
+  Forall plain name -> MS ind m st ->
+  Run ind m st false
+    (tw_wri (lit "}" ++ [10])
+       (set_local (tw_close (tw_write_string_literal (chunk_attr_name name)
+          (set_local (tw_wr (lit " {" ++ [10]) (tw_write_add sm value origin (tw_wri (lit "if ") st)))
+             (indent_local (snd (tw_wr (lit " {" ++ [10]) (tw_write_add sm value origin (tw_wri (lit "if ") st)))) 1))))
+          (snd (tw_wr (lit " {" ++ [10]) (tw_write_add sm value origin (tw_wri (lit "if ") st))))))
+    [SBlock (lit "if " ++ value) [SLit (lit " " ++ name)]].
+Proof.
+  intros Hname H. destruct (chunk_attr_name_ok name Hname) as [Rn _].
+  destruct (tw_wri_run ind m (lit "if ") st H) as [M1 T1].
+  generalize dependent (tw_wri (lit "if ") st). intros st1 M1 T1.
+  assert (Q1 : quiet st1) by (destruct M1 as [A B]; split; [exact A|rewrite B; reflexivity]).
+  destruct (tw_write_add_quiet sm value origin st1 Q1) as [Q3 L3]. pose proof (tw_write_add_txt sm value origin st1 Q1) as T3.
+  generalize dependent (tw_write_add sm value origin st1). intros st3 Q3 L3 T3.
+  destruct (tw_wr_quiet (lit " {" ++ [10]) st3 Q3) as [Q4 L4]. pose proof (tw_wr_txt (lit " {" ++ [10]) st3 Q3) as T4.
+  generalize dependent (tw_wr (lit " {" ++ [10]) st3). intros st4 Q4 L4 T4.
+  assert (E4 : snd st4 = Lc ind) by (rewrite L4, L3; exact (proj2 M1)).
+  assert (Mb : MS (S ind) false (set_local st4 (indent_local (snd st4) 1))).
+  { split; [exact (proj1 Q4)|]. cbn [set_local snd]. rewrite E4. unfold indent_local, Lc, loc_of. cbn [wl_indent wl_static wl_errh wl_unesc]. rewrite Nat.add_1_r. reflexivity. }
+  pose proof (chunk_run (S ind) false _ _ _ Mb Rn) as R5. pose proof (Run_ms (S ind) R5) as M5. destruct R5 as [_ (body_code & T5 & D5)].
+  rewrite txt_set_local in T5.
+  generalize dependent (tw_write_string_literal (chunk_attr_name name) (set_local st4 (indent_local (snd st4) 1))). intros st5 T5 M5.
+  destruct (close_from_open (S ind) st5 M5) as [[E6 _] T6].
+  assert (E6' : tw_close st5 = close_string_literal st5) by (unfold tw_close, close_if_static; rewrite (proj2 M5); reflexivity).
+  assert (M6 : MS ind false (set_local (tw_close st5) (snd st4))) by (split; [rewrite E6'; cbn [set_local fst]; exact E6|cbn [set_local snd]; exact E4]).
+  destruct (tw_wri_run ind false (lit "}" ++ [10]) _ M6) as [M7 T7].
+  split; [exact M7|].
+  exists ((if m then close_text (Lo ind) else []) ++ block_code ind (lit "if " ++ value) body_code true). split.
+  - rewrite T7, txt_set_local, E6', T6, T5, T4, T3, T1. unfold block_code. rewrite ?app_nil_l. rewrite <- !app_assoc. reflexivity.
+  - assert (Db : denotes ind false false (block_code ind (lit "if " ++ value) body_code true) [SBlock (lit "if " ++ value) [SLit (lit " " ++ name)]]).
+    { rewrite <- (app_nil_r (block_code _ _ _ _)). apply d_block; [exact D5|constructor]. }
+    destruct m; [apply d_close; exact Db|exact Db].
+Qed.
+
+Lemma attr_dyn_run sm ind (name : bytes) (origin : token) (m : bool) st :
+  Forall plain name -> MS ind m st ->
+  Run ind m st false
+    (tw_wr (lit ")+""\""""); __err != nil { return }" ++ [10])
+       (write_formatted_text sm origin (tw_wri (write_string_open ++ lit "goht.EscapeString(") (tw_write_string_literal (chunk_attr_open name) st))))
+    [SLit (lit " " ++ name ++ lit "=" ++ [34]); SDynQ origin].
+Proof.
+  intros Hname H. destruct (chunk_attr_name_ok name Hname) as [_ Ro].
+  pose proof (chunk_run ind m _ _ st H Ro) as R1. pose proof (Run_ms ind R1) as M1.
+  generalize dependent (tw_write_string_literal (chunk_attr_open name) st). intros st1 R1 M1.
+  destruct (tw_wri_run ind true (write_string_open ++ lit "goht.EscapeString(") st1 M1) as [M2 T2].
+  generalize dependent (tw_wri (write_string_open ++ lit "goht.EscapeString(") st1). intros st2 M2 T2.
+  assert (Q2 : quiet st2) by (destruct M2 as [A B]; split; [exact A|rewrite B; reflexivity]).
+  destruct (write_formatted_text_txt sm origin st2 Q2) as (Q3 & L3 & T3).
+  destruct (tw_wr_quiet (lit ")+""\""""); __err != nil { return }" ++ [10]) _ Q3) as [Q4 L4].
+  pose proof (tw_wr_txt (lit ")+""\""""); __err != nil { return }" ++ [10]) _ Q3) as T4.
+  change [SLit (lit " " ++ name ++ lit "=" ++ [34]); SDynQ origin] with ([SLit (lit " " ++ name ++ lit "=" ++ [34])] ++ [SDynQ origin]).
+  eapply Run_trans; [exact R1|].
+  split; [split; [exact (proj1 Q4)|rewrite L4, L3; exact (proj2 M2)]|].
+  exists (close_text (Lo ind) ++ attr_dyn_code ind origin). split.
+  - rewrite T4, T3, T2. unfold attr_dyn_code. rewrite <- !app_assoc. reflexivity.
+  - apply d_close. rewrite <- (app_nil_r (attr_dyn_code _ _)). apply d_attr. constructor.
+Qed.
+
+Lemma render_attrs_run sm ind (l : list (bytes * attribute)) : forall (m : bool) st,
   Forall (fun kv => dyn_attr (snd kv)) l -> MS ind m st ->
   exists m' : bool, Run ind m st m' (render_attrs sm l st) (List.concat (map (fun kv => attr_segs (snd kv)) l)).
 Proof.
   induction l as [|[k a] rest IH]; intros m st Hall H; [exists m; apply Run_refl; exact H|].
   inversion Hall as [|? ? [Hname Hval] Hrest]; subst. cbn [snd] in *. cbn [render_attrs map List.concat]. cbv zeta.
   destruct (chunk_attr_name_ok (a_name a) Hname) as [Rn Ro].
-  match goal with |- exists m' : bool, Run ind _ st _ (render_attrs sm rest ?x) _ => set (s1 := x) end.
-  assert (Hone : exists m1 : bool, Run ind m st m1 s1 (attr_segs a)).
-  { subst s1. unfold attr_segs. destruct (a_value a) as [|v0 v] eqn:Ev.
-    - exists true. apply chunk_run; assumption.
-    - destruct (a_bool a) eqn:Eb.
-      + (* conditional attribute *)
-        destruct (tw_wri_run ind m (lit "if ") st H) as [M1 T1]. set (st1 := tw_wri (lit "if ") st) in *.
-        assert (Q1 : quiet st1) by (destruct M1 as [A B]; split; [exact A|rewrite B; reflexivity]).
-        destruct (tw_write_add_quiet sm (v0 :: v) (a_origin a) st1 Q1) as [Q3 L3]. pose proof (tw_write_add_txt sm (v0 :: v) (a_origin a) st1 Q1) as T3.
-        set (st3 := tw_write_add sm (v0 :: v) (a_origin a) st1) in *.
-        destruct (tw_wr_quiet (lit " {" ++ [10]) st3 Q3) as [Q4 L4]. pose proof (tw_wr_txt (lit " {" ++ [10]) st3 Q3) as T4.
-        set (st4 := tw_wr (lit " {" ++ [10]) st3) in *.
-        assert (E4 : snd st4 = Lc ind) by (rewrite L4, L3; exact (proj2 M1)).
-        assert (Mb : MS (S ind) false (set_local st4 (indent_local (snd st4) 1))).
-        { split; [exact (proj1 Q4)|]. cbn [set_local snd]. rewrite E4. unfold indent_local, Lc, loc_of. cbn [wl_indent wl_static wl_errh wl_unesc]. rewrite Nat.add_1_r. reflexivity. }
-        destruct (chunk_run (S ind) false _ _ _ Mb Rn) as [M5 (body_code & T5 & D5)]. rewrite txt_set_local in T5.
-        set (st5 := tw_write_string_literal (chunk_attr_name (a_name a)) (set_local st4 (indent_local (snd st4) 1))) in *.
-        clearbody st5. clearbody st4. clearbody st3. clearbody st1.
-        destruct (close_from_open (S ind) st5 M5) as [[E6 _] T6].
-        assert (E6' : tw_close st5 = close_string_literal st5) by (unfold tw_close, close_if_static; rewrite (proj2 M5); reflexivity).
-        assert (M6 : MS ind false (set_local (tw_close st5) (snd st4))) by (split; [rewrite E6'; cbn [set_local fst]; exact E6|cbn [set_local snd]; exact E4]).
-        destruct (tw_wri_run ind false (lit "}" ++ [10]) _ M6) as [M7 T7].
-        exists false. split; [exact M7|].
-        exists ((if m then close_text (Lo ind) else []) ++ block_code ind (lit "if " ++ v0 :: v) body_code true). split.
-        * rewrite T7, txt_set_local, E6', T6, T5, T4, T3, T1. unfold block_code. cbn [app]. rewrite <- !app_assoc. reflexivity.
-        * assert (Db : denotes ind false false (block_code ind (lit "if " ++ v0 :: v) body_code true) [SBlock (lit "if " ++ v0 :: v) [SLit (lit " " ++ a_name a)]]).
-          { rewrite <- (app_nil_r (block_code _ _ _ _)). apply d_block; [exact D5|constructor]. }
-          destruct m; [apply d_close; exact Db|exact Db].
-      + destruct Hval as [Hv|[(_ & Hd & Hok)|[(_ & Hd)|Hb]]]; try discriminate; try congruence.
-        * (* static value *)
-          rewrite Hd. pose proof (chunk_run ind m _ _ st H Ro) as R1.
-          destruct (chunk_attr_value_ok (v0 :: v) Hok) as [Rv _].
-          pose proof (chunk_run ind true _ _ _ (Run_ms ind R1) Rv) as R2.
-          exists true. change [SLit (lit " " ++ a_name a ++ lit "=" ++ [34]); SLit (html_escape (v0 :: v) ++ [34])]
-            with ([SLit (lit " " ++ a_name a ++ lit "=" ++ [34])] ++ [SLit (html_escape (v0 :: v) ++ [34])]).
-          eapply Run_trans; eassumption.
-        * (* dynamic value *)
-          rewrite Hd. pose proof (chunk_run ind m _ _ st H Ro) as R1.
-          set (st1 := tw_write_string_literal (chunk_attr_open (a_name a)) st) in *.
-          destruct (tw_wri_run ind true (write_string_open ++ lit "goht.EscapeString(") st1 (Run_ms ind R1)) as [M2 T2].
-          set (st2 := tw_wri (write_string_open ++ lit "goht.EscapeString(") st1) in *.
-          assert (Q2 : quiet st2) by (destruct M2 as [A B]; split; [exact A|rewrite B; reflexivity]).
-          destruct (write_formatted_text_txt sm (a_origin a) st2 Q2) as (Q3 & L3 & T3).
-          destruct (tw_wr_quiet (lit ")+""\""""); __err != nil { return }" ++ [10]) _ Q3) as [Q4 L4].
-          pose proof (tw_wr_txt (lit ")+""\""""); __err != nil { return }" ++ [10]) _ Q3) as T4.
-          exists false.
-          change [SLit (lit " " ++ a_name a ++ lit "=" ++ [34]); SDynQ (a_origin a)] with ([SLit (lit " " ++ a_name a ++ lit "=" ++ [34])] ++ [SDynQ (a_origin a)]).
-          eapply Run_trans; [exact R1|].
-          split; [split; [exact (proj1 Q4)|rewrite L4, L3; exact (proj2 M2)]|].
-          exists (close_text (Lo ind) ++ attr_dyn_code ind (a_origin a)). split.
-          -- rewrite T4, T3, T2. unfold attr_dyn_code. rewrite <- !app_assoc. reflexivity.
-          -- apply d_close. rewrite <- (app_nil_r (attr_dyn_code _ _)). apply d_attr. constructor. }
-  destruct Hone as (m1 & R1). clearbody s1.
-  destruct (IH m1 s1 Hrest (Run_ms ind R1)) as (m2 & R2). exists m2. eapply Run_trans; [exact R1|exact R2].
+  unfold attr_segs at 1. cbn [snd].
+  destruct (a_value a) as [|v0 v] eqn:Ev.
+  - pose proof (chunk_run ind m _ _ st H Rn) as R1.
+    destruct (IH true _ Hrest (Run_ms ind R1)) as (m2 & R2). exists m2. eapply Run_trans; [exact R1|exact R2].
+  - destruct (a_bool a) eqn:Eb.
+    + pose proof (attr_bool_run sm ind (a_name a) (v0 :: v) (a_origin a) m st Hname H) as R1.
+      destruct (IH false _ Hrest (Run_ms ind R1)) as (m2 & R2). exists m2. eapply Run_trans; [exact R1|exact R2].
+    + destruct Hval as [Hv|[(_ & Hd & Hok)|[(_ & Hd)|Hb]]]; try discriminate; try congruence.
+      * rewrite Hd. pose proof (chunk_run ind m _ _ st H Ro) as R1.
+        destruct (chunk_attr_value_ok (v0 :: v) Hok) as [Rv _].
+        pose proof (chunk_run ind true _ _ _ (Run_ms ind R1) Rv) as R2.
+        destruct (IH true _ Hrest (Run_ms ind R2)) as (m3 & R3). exists m3.
+        change [SLit (lit " " ++ a_name a ++ lit "=" ++ [34]); SLit (html_escape (v0 :: v) ++ [34])]
+          with ([SLit (lit " " ++ a_name a ++ lit "=" ++ [34])] ++ [SLit (html_escape (v0 :: v) ++ [34])]).
+        eapply Run_trans; [eapply Run_trans; [exact R1|exact R2]|exact R3].
+      * rewrite Hd. pose proof (attr_dyn_run sm ind (a_name a) (a_origin a) m st Hname H) as R1.
+        destruct (IH false _ Hrest (Run_ms ind R1)) as (m2 & R2). exists m2. eapply Run_trans; [exact R1|exact R2].
 Qed.
 
-Lemma render_attributes_run sm ind d st : dyn_elem d -> MS ind true st ->
-  exists m' : bool, Run ind true st m' (render_attributes sm d st) (SLit (id_class_html d) :: attrs_segs d).
-Proof.
-  intros (Htag & Hid & Hcl & Hobj & Hca & Hat & Hcmd & _) H. unfold render_attributes. cbv zeta. rewrite Hobj, Hca, Hcmd.
-  set (st2 := match e_id d with [] => st | _ => _ end).
-  assert (H2 : LS (Lo ind) st2 /\ Step st st2 (match e_id d with [] => [] | i => lit " id=" ++ [34] ++ html_escape i ++ [34] end)).
-  { subst st2. destruct (e_id d) as [|i0 i] eqn:Ei; [split; [exact H|apply Step_refl]|].
-    destruct (chunk_id_ok (i0 :: i) Hid) as [Ri _]. apply (chunk_step (Lo ind) eq_refl); assumption. }
-  destruct H2 as [L2 S2]. clearbody st2.
-  destruct (render_class_static (Lo ind) eq_refl sm (e_classes d) st2 Hcl L2) as [L3 S3].
-  pose proof (step_run ind st _ _ H L3 (Step_trans _ _ _ _ _ S2 S3)) as R3. fold (id_class_html d) in R3.
-  destruct (render_attrs_run sm ind (e_attrs d) true _ Hat L3) as (m' & R4).
-  exists m'. change (SLit (id_class_html d) :: attrs_segs d) with ([SLit (id_class_html d)] ++ attrs_segs d).
-  eapply Run_trans; eassumption.
-Qed.
 
 Lemma after_var_facts st : w_err (fst st) = None ->
   w_err (fst (after_var st)) = None /\ snd (after_var st) = snd st /\ txt (after_var st) = txt st.
 Proof. destruct st as [[o n l c a e] loc]. cbn [fst w_err]. intros ->. unfold after_var, get_var_name, txt. cbn. auto. Qed.
+
+(** the arguments of BuildClassList, written one after the other *)
+Lemma write_class_args_txt sm (l : list token) : forall st, quiet st ->
+  quiet (write_class_args sm l st) /\ snd (write_class_args sm l st) = snd st /\
+  txt (write_class_args sm l st) = txt st ++ class_args_text l.
+Proof.
+  induction l as [|c rest IH]; intros st Q; [cbn; rewrite app_nil_r; auto|].
+  cbn [write_class_args class_args_text]. cbv zeta.
+  assert (H1 : quiet (match t_typ c with
+                     | TObjectRef => tw_wr (lit "goht.ObjectClass(" ++ t_lit c ++ lit ")") st
+                     | TAttrDynamicValue => tw_write_add sm (t_lit c) c st
+                     | TClass => tw_wr (go_quote (t_lit c)) st
+                     | _ => tw_wr (t_lit c) st end) /\
+               snd (match t_typ c with
+                     | TObjectRef => tw_wr (lit "goht.ObjectClass(" ++ t_lit c ++ lit ")") st
+                     | TAttrDynamicValue => tw_write_add sm (t_lit c) c st
+                     | TClass => tw_wr (go_quote (t_lit c)) st
+                     | _ => tw_wr (t_lit c) st end) = snd st /\
+               txt (match t_typ c with
+                     | TObjectRef => tw_wr (lit "goht.ObjectClass(" ++ t_lit c ++ lit ")") st
+                     | TAttrDynamicValue => tw_write_add sm (t_lit c) c st
+                     | TClass => tw_wr (go_quote (t_lit c)) st
+                     | _ => tw_wr (t_lit c) st end) = txt st ++ class_arg_text c).
+  { unfold class_arg_text. destruct (t_typ c);
+      first [ destruct (tw_write_add_quiet sm (t_lit c) c st Q) as [A B]; split; [exact A|split; [exact B|apply tw_write_add_txt; exact Q]]
+            | match goal with |- quiet (tw_wr ?x st) /\ _ => destruct (tw_wr_quiet x st Q) as [A B]; split; [exact A|split; [exact B|apply tw_wr_txt; exact Q]] end ]. }
+  destruct H1 as (Q1 & L1 & T1).
+  match goal with |- context [write_class_args sm rest ?s2] => set (st2 := s2) end.
+  assert (H2 : quiet st2 /\ snd st2 = snd st /\ txt st2 = txt st ++ class_arg_text c ++ match rest with [] => [] | _ => lit ", " end).
+  { subst st2. destruct rest as [|c' rest'].
+    - split; [exact Q1|]. split; [exact L1|]. rewrite T1, app_nil_r. reflexivity.
+    - match goal with |- quiet (tw_wr ?x ?s) /\ _ => destruct (tw_wr_quiet x s Q1) as [A B]; split; [exact A|split; [rewrite B; exact L1|]]; rewrite (tw_wr_txt x s Q1), T1, <- app_assoc; reflexivity end. }
+  destruct H2 as (Q2 & L2 & T2). clearbody st2.
+  destruct (IH st2 Q2) as (Q3 & L3 & T3). split; [exact Q3|]. split; [rewrite L3; exact L2|].
+  rewrite T3, T2, <- !app_assoc. reflexivity.
+Qed.
+
+Lemma error_handler_txt st : quiet st -> wl_errh (snd st) = false ->
+  quiet (tw_write_error_handler st) /\ snd (tw_write_error_handler st) = snd st /\
+  txt (tw_write_error_handler st) = txt st ++ tabs (wl_indent (snd st)) ++ lit "if __err != nil { return }" ++ [10].
+Proof.
+  intros [He Hs] Hh. unfold tw_write_error_handler, add_err_handler. rewrite Hs, Hh.
+  match goal with |- context [wr ?x st] => destruct (wr_quiet x st He) as [E1 L1]; rewrite (wr_txt' x st He) end.
+  split; [split; [exact E1|rewrite L1; exact Hs]|]. split; [exact L1|reflexivity].
+Qed.
+
+Lemma forallb_snoc_false {A} (f : A -> bool) l x : f x = false -> forallb f (l ++ [x]) = false.
+Proof. intro H. induction l as [|y l IH]; cbn; [rewrite H; reflexivity|rewrite IH; apply Bool.andb_false_r]. Qed.
+
+(** a block that builds a value with a runtime helper and writes it: BuildClassList / BuildAttributeList *)
+Lemma helper_block_run ind m st (pre : bytes -> bytes) (fill : est -> est) (args : bytes) (w : bytes -> bytes) code :
+  MS ind m st ->
+  (forall s, quiet s -> quiet (fill s) /\ snd (fill s) = snd s /\ txt (fill s) = txt s ++ args) ->
+  (forall v, code v = tabs ind ++ lit "var " ++ v ++ lit " string" ++ [10] ++ tabs ind ++ pre v ++ args ++ lit ")" ++ [10] ++
+                      tabs ind ++ lit "if __err != nil { return }" ++ [10] ++ tabs ind ++ write_string_open ++ w v ++ lit "); __err != nil { return }" ++ [10]) ->
+  let v := var_name_of st in
+  let st' := tw_write_string_indent (w v) (tw_write_error_handler (tw_wr (lit ")" ++ [10]) (fill (tw_wri (pre v) (tw_wri (lit "var " ++ v ++ lit " string" ++ [10]) (after_var st)))))) in
+  MS ind false st' /\ txt st' = txt st ++ (if m then close_text (Lo ind) else []) ++ code v.
+Proof.
+  intros [He Hl] Hfill Hcode. cbv zeta. set (v := var_name_of st).
+  destruct (after_var_facts st He) as (E1 & L1 & T1).
+  assert (M1 : MS ind m (after_var st)) by (split; [exact E1|rewrite L1; exact Hl]).
+  destruct (tw_wri_run ind m (lit "var " ++ v ++ lit " string" ++ [10]) _ M1) as [M2 T2].
+  set (s2 := tw_wri (lit "var " ++ v ++ lit " string" ++ [10]) (after_var st)) in *.
+  destruct (tw_wri_run ind false (pre v) s2 M2) as [M3 T3]. set (s3 := tw_wri (pre v) s2) in *.
+  assert (Q3 : quiet s3) by (destruct M3 as [A B]; split; [exact A|rewrite B; reflexivity]).
+  destruct (Hfill s3 Q3) as (Q4 & L4 & T4). set (s4 := fill s3) in *.
+  destruct (tw_wr_quiet (lit ")" ++ [10]) s4 Q4) as [Q5 L5]. pose proof (tw_wr_txt (lit ")" ++ [10]) s4 Q4) as T5.
+  set (s5 := tw_wr (lit ")" ++ [10]) s4) in *.
+  assert (E5 : snd s5 = Lc ind) by (rewrite L5, L4; exact (proj2 M3)).
+  destruct (error_handler_txt s5 Q5) as (Q6 & L6 & T6); [rewrite E5; reflexivity|].
+  set (s6 := tw_write_error_handler s5) in *.
+  destruct (tw_write_string_indent_txt (w v) s6 Q6) as (Q7 & L7 & T7).
+  split; [split; [exact (proj1 Q7)|rewrite L7, L6; exact E5]|].
+  rewrite T7, T6, T5, T4, T3, T2, T1, L6, E5. cbn [Lc wl_indent]. rewrite Hcode. rewrite ?app_nil_l. rewrite <- !app_assoc. reflexivity.
+Qed.
+
+(** [obj] : the id from goht.ObjectID *)
+Lemma objid_run sm ind (o : token) st : MS ind true st ->
+  Run ind true st false
+    (tw_wri (lit "}" ++ [10]) (tw_wri ([9] ++ write_string_open ++ lit """ id=\""""+" ++ var_name_of st ++ lit "+""\""""); __err != nil { return }" ++ [10])
+       (tw_wr (lit "); " ++ var_name_of st ++ lit " != """" {" ++ [10]) (tw_write_add sm (t_lit o) o (tw_wri (lit "if " ++ var_name_of st ++ lit " := goht.ObjectID(") (after_var st))))))
+    [SObjId (t_lit o)].
+Proof.
+  intros [He Hl]. destruct (after_var_facts st He) as (E1 & L1 & T1).
+  set (v := var_name_of st).
+  assert (M1 : MS ind true (after_var st)) by (split; [exact E1|rewrite L1; exact Hl]).
+  destruct (tw_wri_run ind true (lit "if " ++ v ++ lit " := goht.ObjectID(") _ M1) as [M2 T2].
+  set (s2 := tw_wri (lit "if " ++ v ++ lit " := goht.ObjectID(") (after_var st)) in *.
+  assert (Q2 : quiet s2) by (destruct M2 as [A B]; split; [exact A|rewrite B; reflexivity]).
+  destruct (tw_write_add_quiet sm (t_lit o) o s2 Q2) as [Q4 L4]. pose proof (tw_write_add_txt sm (t_lit o) o s2 Q2) as T4.
+  set (s4 := tw_write_add sm (t_lit o) o s2) in *.
+  destruct (tw_wr_quiet (lit "); " ++ v ++ lit " != """" {" ++ [10]) s4 Q4) as [Q5 L5]. pose proof (tw_wr_txt (lit "); " ++ v ++ lit " != """" {" ++ [10]) s4 Q4) as T5.
+  set (s5 := tw_wr (lit "); " ++ v ++ lit " != """" {" ++ [10]) s4) in *.
+  assert (M5 : MS ind false s5) by (split; [exact (proj1 Q5)|rewrite L5, L4; exact (proj2 M2)]).
+  destruct (tw_wri_run ind false ([9] ++ write_string_open ++ lit """ id=\""""+" ++ v ++ lit "+""\""""); __err != nil { return }" ++ [10]) s5 M5) as [M6 T6].
+  set (s6 := tw_wri ([9] ++ write_string_open ++ lit """ id=\""""+" ++ v ++ lit "+""\""""); __err != nil { return }" ++ [10]) s5) in *.
+  destruct (tw_wri_run ind false (lit "}" ++ [10]) s6 M6) as [M7 T7].
+  split; [exact M7|]. exists (close_text (Lo ind) ++ objid_code ind v (t_lit o)). split.
+  - rewrite T7, T6, T5, T4, T2, T1. unfold objid_code. cbv iota. rewrite ?app_nil_l. rewrite <- !app_assoc. reflexivity.
+  - apply d_close. rewrite <- (app_nil_r (objid_code _ _ _)). apply d_objid. constructor.
+Qed.
+
+Lemma id_run ind d (m : bool) st : bytes_ok (e_id d) -> MS ind m st ->
+  exists m2 : bool, Run ind m st m2 (match e_id d with [] => st | i => tw_write_string_literal (chunk_id i) st end) (id_segs d).
+Proof.
+  intros Hid H. unfold id_segs, id_html. destruct (e_id d) as [|i0 i] eqn:Ei; [exists m; apply Run_refl; exact H|].
+  destruct (chunk_id_ok (i0 :: i) Hid) as [Ri _]. exists true. apply chunk_run; assumption.
+Qed.
+
+(** a class list with an object reference in it goes through goht.BuildClassList *)
+Lemma classlist_run sm ind (l : list token) (o : token) (m : bool) st : t_typ o = TObjectRef -> MS ind m st ->
+  Run ind m st false (render_class sm (l ++ [o]) st) [SClassList (class_args_text (l ++ [o]))].
+Proof.
+  intros Ht H. unfold render_class.
+  destruct (l ++ [o]) as [|c0 cs] eqn:El; [destruct l; discriminate|]. rewrite <- El.
+  rewrite forallb_snoc_false by (rewrite Ht; reflexivity). cbv zeta.
+  destruct (helper_block_run ind m st (fun v => v ++ lit ", __err = goht.BuildClassList(") (write_class_args sm (l ++ [o])) (class_args_text (l ++ [o]))
+              (fun v => lit """ class=\""""+" ++ v ++ lit "+""\""""") (fun v => classlist_code ind v (class_args_text (l ++ [o]))) H
+              (write_class_args_txt sm (l ++ [o]))) as [M T].
+  { intro v. unfold classlist_code. rewrite <- !app_assoc. reflexivity. }
+  split; [exact M|]. exists ((if m then close_text (Lo ind) else []) ++ classlist_code ind (var_name_of st) (class_args_text (l ++ [o]))).
+  split; [exact T|].
+  assert (D : denotes ind false false (classlist_code ind (var_name_of st) (class_args_text (l ++ [o]))) [SClassList (class_args_text (l ++ [o]))]).
+  { rewrite <- (app_nil_r (classlist_code _ _ _)). apply d_classlist. constructor. }
+  destruct m; [apply d_close; exact D|exact D].
+Qed.
+
+Lemma attrlist_run ind (cmd : bytes) (m : bool) st : MS ind m st ->
+  let v := var_name_of st in
+  Run ind m st false
+    (tw_write_string_indent v (tw_write_error_handler (tw_wri (v ++ lit ", __err = goht.BuildAttributeList(" ++ cmd ++ lit ")" ++ [10])
+       (tw_wri (lit "var " ++ v ++ lit " string" ++ [10]) (after_var st)))))
+    [SAttrList cmd].
+Proof.
+  intros [He Hl]. cbv zeta. set (v := var_name_of st).
+  destruct (after_var_facts st He) as (E1 & L1 & T1).
+  assert (M1 : MS ind m (after_var st)) by (split; [exact E1|rewrite L1; exact Hl]).
+  destruct (tw_wri_run ind m (lit "var " ++ v ++ lit " string" ++ [10]) _ M1) as [M2 T2].
+  set (s2 := tw_wri (lit "var " ++ v ++ lit " string" ++ [10]) (after_var st)) in *.
+  destruct (tw_wri_run ind false (v ++ lit ", __err = goht.BuildAttributeList(" ++ cmd ++ lit ")" ++ [10]) s2 M2) as [M3 T3].
+  set (s3 := tw_wri (v ++ lit ", __err = goht.BuildAttributeList(" ++ cmd ++ lit ")" ++ [10]) s2) in *.
+  assert (Q3 : quiet s3) by (destruct M3 as [A B]; split; [exact A|rewrite B; reflexivity]).
+  destruct (error_handler_txt s3 Q3) as (Q4 & L4 & T4); [rewrite (proj2 M3); reflexivity|].
+  set (s4 := tw_write_error_handler s3) in *.
+  destruct (tw_write_string_indent_txt v s4 Q4) as (Q5 & L5 & T5).
+  split; [split; [exact (proj1 Q5)|rewrite L5, L4; exact (proj2 M3)]|].
+  exists ((if m then close_text (Lo ind) else []) ++ attrlist_code ind v cmd). split.
+  - rewrite T5, T4, T3, T2, T1, L4, (proj2 M3). cbn [loc_of Lc wl_indent]. unfold attrlist_code. rewrite ?app_nil_l. rewrite <- !app_assoc. reflexivity.
+  - assert (D : denotes ind false false (attrlist_code ind v cmd) [SAttrList cmd]).
+    { rewrite <- (app_nil_r (attrlist_code _ _ _)). apply d_attrlist. constructor. }
+    destruct m; [apply d_close; exact D|exact D].
+Qed.
+
+Lemma render_attributes_run sm ind d st : dyn_elem d -> MS ind true st ->
+  exists m' : bool, Run ind true st m' (render_attributes sm d st) (elem_segs d).
+Proof.
+  intros (Htag & Hid & Hcl & Hobj & Hca & Hat) H. unfold render_attributes, elem_segs. cbv zeta. rewrite Hca.
+  assert (Hhead : exists (m3 : bool) st3,
+            Run ind true st m3 st3
+              (match e_objref d with
+               | None => [SLit (id_class_html d)]
+               | Some o => [SObjId (t_lit o)] ++ id_segs d ++ [SClassList (class_args_text (e_classes d ++ [o]))]
+               end) /\
+            st3 = render_class sm (match e_objref d with Some o => e_classes d ++ [o] | None => e_classes d end)
+                    (match e_id d with
+                     | [] => match e_objref d with
+                             | Some o => tw_wri (lit "}" ++ [10]) (tw_wri ([9] ++ write_string_open ++ lit """ id=\""""+" ++ var_name_of st ++ lit "+""\""""); __err != nil { return }" ++ [10])
+                                            (tw_wr (lit "); " ++ var_name_of st ++ lit " != """" {" ++ [10]) (tw_write_add sm (t_lit o) o (tw_wri (lit "if " ++ var_name_of st ++ lit " := goht.ObjectID(") (after_var st)))))
+                             | None => st end
+                     | i => tw_write_string_literal (chunk_id i)
+                              (match e_objref d with
+                               | Some o => tw_wri (lit "}" ++ [10]) (tw_wri ([9] ++ write_string_open ++ lit """ id=\""""+" ++ var_name_of st ++ lit "+""\""""); __err != nil { return }" ++ [10])
+                                              (tw_wr (lit "); " ++ var_name_of st ++ lit " != """" {" ++ [10]) (tw_write_add sm (t_lit o) o (tw_wri (lit "if " ++ var_name_of st ++ lit " := goht.ObjectID(") (after_var st)))))
+                               | None => st end)
+                     end)).
+  { destruct (e_objref d) as [o|] eqn:Eo.
+    - pose proof (objid_run sm ind o st H) as R1.
+      match type of R1 with Run _ _ _ _ ?x _ => set (st1 := x) in * end.
+      destruct (id_run ind d false st1 Hid (Run_ms ind R1)) as (m2 & R2).
+      match type of R2 with Run _ _ _ _ ?x _ => set (st2 := x) in * end.
+      pose proof (classlist_run sm ind (e_classes d) o m2 st2 (Hobj o eq_refl) (Run_ms ind R2)) as R3.
+      exists false, (render_class sm (e_classes d ++ [o]) st2). split; [|subst st2 st1; destruct (e_id d); reflexivity].
+      eapply Run_trans; [exact R1|]. eapply Run_trans; [exact R2|exact R3].
+    - set (st2 := match e_id d with [] => st | i => tw_write_string_literal (chunk_id i) st end).
+      assert (H2 : LS (Lo ind) st2 /\ Step st st2 (match e_id d with [] => [] | i => lit " id=" ++ [34] ++ html_escape i ++ [34] end)).
+      { subst st2. destruct (e_id d) as [|i0 i] eqn:Ei; [split; [exact H|apply Step_refl]|].
+        destruct (chunk_id_ok (i0 :: i) Hid) as [Ri _]. apply (chunk_step (Lo ind) eq_refl); assumption. }
+      destruct H2 as [L2 S2].
+      destruct (render_class_static (Lo ind) eq_refl sm (e_classes d) st2 Hcl L2) as [L3 S3].
+      pose proof (step_run ind st _ _ H L3 (Step_trans _ _ _ _ _ S2 S3)) as R3. fold (id_class_html d) in R3.
+      exists true, (render_class sm (e_classes d) st2). split; [exact R3|subst st2; destruct (e_id d); reflexivity]. }
+  destruct Hhead as (m3 & st3 & R3 & E3). rewrite <- E3. clear E3.
+  destruct (render_attrs_run sm ind (e_attrs d) m3 st3 Hat (Run_ms ind R3)) as (m4 & R4).
+  set (st4 := render_attrs sm (e_attrs d) st3) in *.
+  destruct (e_attrs_cmd d) as [|c0 cmd] eqn:Ec.
+  - exists m4. rewrite app_nil_r. eapply Run_trans; [exact R3|exact R4].
+  - pose proof (attrlist_run ind (c0 :: cmd) m4 st4 (Run_ms ind R4)) as R5. cbv zeta in R5.
+    exists false. match goal with |- Run _ _ _ _ _ (?a ++ ?b ++ ?c) => rewrite (app_assoc a b c) end.
+    eapply Run_trans; [eapply Run_trans; [exact R3|exact R4]|exact R5].
+Qed.
+
 
 Lemma fold_lines_txt (lines : list bytes) : forall st, quiet st ->
   quiet (fold_left (fun s line => tw_wri line s) lines st) /\ snd (fold_left (fun s line => tw_wri line s) lines st) = snd st /\
@@ -646,33 +945,46 @@ Proof.
     exists true. cbn [fst snd]. split; [apply chunk_run; assumption|reflexivity].
   - (* element *)
     destruct Hs as [Hd [Hko Hch]]. apply dyn_all_eq in Hch.
-    pose proof Hd as (Htag & _ & _ & _ & _ & _ & _ & Hni & Hno). rewrite Hni, Hno.
+    pose proof Hd as (Htag & _).
     destruct (chunk_tag_ok (e_tag d) Htag) as [Rto Rtc].
-    pose proof (chunk_run ind m _ _ st H Rto) as R1.
-    set (st1 := tw_write_string_literal (chunk_tag_open (e_tag d)) st) in *.
+    (* optional marker in front *)
+    assert (R0 : exists m0 : bool, Run ind m st m0 (if e_nuke_outer d then tw_write_string_literal c_NukeBefore st else st)
+                                         (if e_nuke_outer d then [SLit c_NukeBefore] else [])).
+    { destruct (e_nuke_outer d); [exists true; apply chunk_run; [exact H|exact reads_marker_before]|exists m; apply Run_refl; exact H]. }
+    destruct R0 as (m0 & R0). set (st0 := if e_nuke_outer d then tw_write_string_literal c_NukeBefore st else st) in *.
+    pose proof (chunk_run ind m0 _ _ st0 (Run_ms ind R0) Rto) as R1.
+    set (st1 := tw_write_string_literal (chunk_tag_open (e_tag d)) st0) in *.
     destruct (render_attributes_run sm ind d st1 Hd (Run_ms ind R1)) as (m2 & R2).
     set (st2 := render_attributes sm d st1) in *.
     assert (Rgt : reads_as (lit ">") (lit ">")) by (apply reads_as_plain; repeat constructor; cbn; try lia; discriminate).
     pose proof (chunk_run ind m2 _ _ st2 (Run_ms ind R2) Rgt) as R3.
     set (st4 := tw_write_string_literal (lit ">") st2) in *.
-    assert (R4 : Run ind m st true st4 ([SLit (lit "<" ++ e_tag d); SLit (id_class_html d)] ++ attrs_segs d ++ [SLit (lit ">")])).
-    { change ([SLit (lit "<" ++ e_tag d); SLit (id_class_html d)] ++ attrs_segs d ++ [SLit (lit ">")])
-        with ([SLit (lit "<" ++ e_tag d)] ++ (SLit (id_class_html d) :: attrs_segs d) ++ [SLit (lit ">")]).
-      eapply Run_trans; [exact R1|]. eapply Run_trans; [exact R2|exact R3]. }
-    match goal with |- exists m' : bool, Run ind _ st _ _ (?X ++ ?Y ++ ?Z ++ ?W) /\ _ =>
-      replace (X ++ Y ++ Z ++ W) with ((X ++ Y ++ Z) ++ W) by (rewrite <- !app_assoc; reflexivity) end.
+    assert (R4 : Run ind m st true st4 ((if e_nuke_outer d then [SLit c_NukeBefore] else []) ++ [SLit (lit "<" ++ e_tag d)] ++ elem_segs d ++ [SLit (lit ">")])).
+    { eapply Run_trans; [exact R0|]. eapply Run_trans; [exact R1|]. eapply Run_trans; [exact R2|exact R3]. }
+    match goal with |- exists m' : bool, Run ind _ st _ _ (?V ++ ?X ++ ?Y ++ ?Z ++ ?W) /\ _ =>
+      replace (V ++ X ++ Y ++ Z ++ W) with ((V ++ X ++ Y ++ Z) ++ W) by (rewrite <- !app_assoc; reflexivity) end.
     destruct (e_selfclosing d); cbn [fst snd].
     + exists true. rewrite app_nil_r. split; [exact R4|reflexivity].
     + fold (only_newline ch).
-      assert (H6 : exists m6 : bool, Run ind true st4 m6 (if only_newline ch then st4 else emit_list sm ch false st4) (if only_newline ch then [] else segs_list false ch)).
-      { destruct (only_newline ch); [exists true; apply Run_refl; exact (Run_ms ind R4)|]. apply kids_run; [assumption|assumption|exact Hko|exact (Run_ms ind R4)]. }
-      destruct H6 as (m6 & R6). set (st6 := if only_newline ch then st4 else emit_list sm ch false st4) in *.
-      pose proof (chunk_run ind m6 _ _ st6 (Run_ms ind R6) Rtc) as R8.
-      set (st8 := tw_write_string_literal (chunk_tag_close (e_tag d)) st6) in *.
-      pose proof (chunk_run ind true _ _ st8 (Run_ms ind R8) reads_as_escaped_newline) as R9.
+      assert (R5 : Run ind true st4 true (if e_nuke_inner d then tw_write_string_literal c_NukeAfter st4 else st4)
+                                       (if e_nuke_inner d then [SLit c_NukeAfter] else [])).
+      { destruct (e_nuke_inner d); [apply chunk_run; [exact (Run_ms ind R4)|exact reads_marker_after]|apply (Run_refl ind true); exact (Run_ms ind R4)]. }
+      set (st5 := if e_nuke_inner d then tw_write_string_literal c_NukeAfter st4 else st4) in *.
+      assert (H6 : exists m6 : bool, Run ind true st5 m6 (if only_newline ch then st5 else emit_list sm ch false st5) (if only_newline ch then [] else segs_list false ch)).
+      { destruct (only_newline ch); [exists true; apply Run_refl; exact (Run_ms ind R5)|]. apply kids_run; [assumption|assumption|exact Hko|exact (Run_ms ind R5)]. }
+      destruct H6 as (m6 & R6). set (st6 := if only_newline ch then st5 else emit_list sm ch false st5) in *.
+      assert (R7 : exists m7 : bool, Run ind m6 st6 m7 (if e_nuke_inner d then tw_write_string_literal c_NukeBefore st6 else st6)
+                                           (if e_nuke_inner d then [SLit c_NukeBefore] else [])).
+      { destruct (e_nuke_inner d); [exists true; apply chunk_run; [exact (Run_ms ind R6)|exact reads_marker_before]|exists m6; apply Run_refl; exact (Run_ms ind R6)]. }
+      destruct R7 as (m7 & R7). set (st7 := if e_nuke_inner d then tw_write_string_literal c_NukeBefore st6 else st6) in *.
+      pose proof (chunk_run ind m7 _ _ st7 (Run_ms ind R7) Rtc) as R8.
+      set (st8 := tw_write_string_literal (chunk_tag_close (e_tag d)) st7) in *.
+      assert (R9 : Run ind true st8 true (if e_nuke_outer d then tw_write_string_literal c_NukeAfter st8 else tw_write_string_literal (lit "\n") st8)
+                                       [SLit (if e_nuke_outer d then c_NukeAfter else [10])]).
+      { destruct (e_nuke_outer d); apply chunk_run; try exact (Run_ms ind R8); [exact reads_marker_after|exact reads_as_escaped_newline]. }
       exists true. split; [|reflexivity].
-      eapply Run_trans; [exact R4|]. eapply Run_trans; [exact R6|].
-      change [SLit (lit "</" ++ e_tag d ++ lit ">"); SLit [10]] with ([SLit (lit "</" ++ e_tag d ++ lit ">")] ++ [SLit [10]]).
+      eapply Run_trans; [exact R4|]. eapply Run_trans; [exact R5|]. eapply Run_trans; [exact R6|]. eapply Run_trans; [exact R7|].
+      match goal with |- Run _ _ _ _ _ [?a; ?b] => change [a; b] with ([a] ++ [b]) end.
       eapply Run_trans; [exact R8|exact R9].
   - (* newline *)
     exists true. cbn [fst snd]. split; [apply chunk_run; [exact H|exact reads_as_escaped_newline]|reflexivity].
@@ -953,7 +1265,8 @@ Proof.
     { unfold html_list. clear - IH Hch. induction IH as [|c r Hc _ IHr]; [reflexivity|].
       inversion Hch; subst. cbn [segs_list map List.concat]. rewrite (static_not_block c) by assumption. cbn [andb].
       rewrite eval_app, Hc, IHr by assumption. reflexivity. }
-    destruct Hd as (_ & _ & _ & _ & _ & Hat & _).
+    destruct Hd as (_ & _ & _ & Hobj & _ & Hat & Hcmd & Hni & Hno).
+    rewrite Hni, Hno. rewrite !app_nil_l. unfold elem_segs. rewrite Hobj, Hcmd, app_nil_r.
     rewrite !eval_app. unfold attrs_segs. rewrite (eval_attrs_static rho _ Hat). unfold elem_open_html, id_class_html.
     destruct (e_selfclosing d).
     + cbn. rewrite !app_nil_r, <- !app_assoc. reflexivity.
